@@ -10,7 +10,13 @@ def make_cases(rng, tier, n):
     stats = {}
     for i in range(n):
         c = gen.basic_project(rng, "hist-%d" % i, tier, stats=stats, wide=(i % 20 == 3))
-        gen.gen_history(rng, c, rng.randrange(5, 12 if tier == "quick" else 40))
+        if i % 20 == 3:
+            # a transfer of more objects than the worker fan-out: commit, push, lose the cache, fetch, use it
+            c["ops"] = [("commit", rng.choice("lc"), []), ("push", False, []), ("wipecache",), ("fetch", False, []), ("status", []),
+                        ("clone", [b"workdir", b"workdir/inner"] if c.get("cwd") else []), ("checkout", rng.choice("lc"), False, [])]
+            c["hist_info"] = dict(edits_between=False)
+        else:
+            gen.gen_history(rng, c, rng.randrange(5, 12 if tier == "quick" else 40))
         if c["hist_info"]["edits_between"]:
             c["two_commits"] = True
         cases.append(c)
@@ -46,6 +52,45 @@ def oracle(run):
     return v
 
 
+def fault_stream(R, dud, drv, rng, tier):
+    """whatever call fails, and whatever the exit status, no object may sit under a wrong name afterwards"""
+    import errno, s2
+    stepper = vlib.build_sysstep()
+    b3 = s1.B3(drv)
+    try:
+        for kind in (["file-copy", "dir-copy"] if tier == "quick" else ["file-copy", "dir-copy", "dir-link", "xdev"]):
+            init = [("dir", b"tree"), ("file", b"tree/a.bin", "g:%d:70000" % rng.randrange(100)), ("file", b"tree/b.bin", "g:%d:20000" % rng.randrange(100)),
+                    ("file", b"one.bin", "g:%d:300000" % rng.randrange(100))]
+            art = (b"one.bin", "") if kind == "file-copy" else (b"tree", "d")
+            c = dict(id="c02-fault-" + kind, init=init, stages=[(b"s.yaml", dict(cmd=b"", wd=b".", out=[art]))], ops=[],
+                     cache="shm" if kind == "xdev" else "rel")
+            cmd = ["commit"] + (["--copy"] if kind.endswith("copy") else [])
+            sc = s2.Scenario(dud, c, b3)
+            try:
+                rc, raw, se = sc.run(stepper, cmd)
+                n = len([l for l in raw if l.split("\t")[0].isdigit()])
+                for k in range(1, n + 1):
+                    for e in ([errno.ENOSPC] if tier == "quick" else [errno.ENOSPC, errno.EIO]):
+                        sc.restore()
+                        rc2, raw2, se2 = sc.run(stepper, cmd, fault=(k, e))
+                        snap = sc.snapshot()
+                        R.count("fault-%s-%d-%d" % (kind, k, e), True)
+                        bad = [(nm[:16], cd[:16]) for nm, cd, mode in snap["cache"] if nm != cd]
+                        if bad:
+                            canon, _ = sc.canon(raw)
+                            R.violation(dict(kind="property-violated-on-implementation", scenario=c["id"], command=cmd, fault_at=k, errno=e, exit=rc2,
+                                             call=sc.by_k.get(k), violations=["object %s holds bytes hashing to %s after `dud %s` (exit %d) with call %d failing" % (
+                                                 b_[0], b_[1], " ".join(cmd), rc2, k) for b_ in bad[:3]]))
+                            break
+                    else:
+                        continue
+                    break
+            finally:
+                sc.cleanup()
+    finally:
+        b3.close()
+
+
 def main(tier, replay=None):
     R = vlib.Result(PROP, tier)
     R.cov["rule"] = ("S1 CLI histories of commit/checkout/status/push/fetch/run with workspace edits in between, both strategies, "
@@ -71,6 +116,7 @@ def main(tier, replay=None):
             R.cov["op_mix"][op[0]] = R.cov["op_mix"].get(op[0], 0) + 1
     for run in runs[:3]:
         R.sample(s1eval.describe(run["case"]))
+    fault_stream(R, dud, drv, rng, tier)
     R.absorb_audit(vlib.lean_audit(PROP))
     if tier == "thorough":
         ok, log = vlib.leanchecker(["DudModel.Props.C02"])
